@@ -29,6 +29,11 @@ impl Universe {
         let index = types.iter().enumerate().map(|(i, t)| (t.clone(), i)).collect();
         Universe { types, index, memo: HashMap::new(), with_failing, witness_cap: 8 }
     }
+    /// a universe over an explicit list of types (terms only pass through listed types)
+    pub fn with_types(types: Vec<Rc<RT>>, with_failing: bool) -> Self {
+        let index = types.iter().enumerate().map(|(i, t)| (t.clone(), i)).collect();
+        Universe { types, index, memo: HashMap::new(), with_failing, witness_cap: 8 }
+    }
     fn ix(&self, t: &Rc<RT>) -> Option<usize> {
         self.index.get(t).copied()
     }
